@@ -4,7 +4,7 @@
 use crate::enc::*;
 use chess::{
     Board, BoardBuilder, BoardStatus, CacheTable, ChessMove, Color, Error, Game, MoveGen, Piece,
-    Square, EMPTY,
+    Square,
 };
 use std::convert::TryFrom;
 use std::str::FromStr;
@@ -793,8 +793,4 @@ pub fn var(b: &Board, b2: &Board, what: &str) -> String {
         opt(guard(|| b.get_hash()).map(hx)),
         opt(guard(|| b2.get_hash()).map(hx))
     )
-}
-
-pub fn is_empty_bb(x: chess::BitBoard) -> bool {
-    x == EMPTY
 }
